@@ -556,6 +556,13 @@ def run_hist(hist):
     sid = init.split('*')[0]
     isa = sid == 'ISA'
     ne = 18 if isa else GRID_E
+    # prelude: every designator of the alphabet that names ANOTHER segment is first used, legitimately, on a segment of
+    # that id in the same process -- what is refused must not depend on what was addressed before
+    for otxt, des in (('OTH*P*Q:R~', ('OTH01', 'OTH02-1')), ('OT*P~', ('OT01',))):
+        o = pyx12.segment.Segment(otxt, '~', '*', ':')
+        for r in des:
+            o.get_value(r)
+            o.set(r, 'Z')
     seg = pyx12.segment.Segment(init + '~', '~', '*', ':')
     M = model_init(init)
     viols = []
